@@ -70,6 +70,16 @@ Theorem C22_reachable_states_invariant : forall g fuel sched, Inv3 g (exec g fue
 Proof. exact reachable_inv3. Qed.
 Print Assumptions C22_reachable_states_invariant.
 
+(* between step invocations the manager is clean (every schedule): nothing marked as resolving, depth 0,
+   scope cache empty — an invocation that overlaps no other one starts from scratch, so whatever
+   non-cached object it is given was created during its own resolution *)
+Theorem C22_idle_manager_is_clean : forall g fuel sched,
+  let s := exec g fuel init sched in
+  (forall tid t, task_at s tid t -> t_status t <> TRunning) ->
+  m_resolving (s_mgr s) = [] /\ m_depth (s_mgr s) = 0 /\ m_rcache (s_mgr s) = [].
+Proof. exact idle_manager_is_clean. Qed.
+Print Assumptions C22_idle_manager_is_clean.
+
 (* ---- refuted under overlap -------------------------------------------------------------------- *)
 
 (* g_one_async = [(1, cached, async, no dependencies)];  sched_overlap = start 1, start 2, run 1, run 2 *)
